@@ -4,7 +4,7 @@ CONSTANTS
   MaxLen = 5
   Widths = {1,2,3,4}
   Slides = {1,2,3}
-  NeModes = {TRUE, FALSE}
+  Strategies <- StratDefault
   FixEvict = FALSE
-INVARIANTS ContentExact Monotone ExactlyOnce UniqueKeys
+INVARIANTS ContentExact StrategyPost Monotone ExactlyOnce UniqueKeys
 CHECK_DEADLOCK FALSE
